@@ -427,7 +427,8 @@ fn issue_crafted(w: &mut World, step: usize) {
     "iss_spelled_with_whitespace_or_uppercase_scheme",
     "vc_issuer_object_with_description",
     "numeric_date_with_fraction",
-  ][ctx::choose(10)];
+    "base_context_not_first",
+  ][ctx::choose(11)];
   let mut claims = serde_json::json!({
     "iss": p.did,
     "nbf": now_i - 100,
@@ -474,6 +475,15 @@ fn issue_crafted(w: &mut World, step: usize) {
         claims["vc"]["issuanceDate"] = "0000-01-01T00:00:00+01:00".into();
       }
     }
+    "base_context_not_first" => {
+      // the base context is present but not the FIRST entry (VC data model: "the first item is a URI with the value
+      // https://www.w3.org/2018/credentials/v1"): well-formed claims, a structurally invalid credential
+      claims["vc"]["@context"] = if ctx::choose(2) == 0 {
+        serde_json::json!(["https://www.w3.org/2018/credentials/examples/v1", "https://www.w3.org/2018/credentials/v1"])
+      } else {
+        serde_json::json!([{"sim": "https://sim.example/vocab#"}, "https://www.w3.org/2018/credentials/v1"])
+      };
+    }
     "nbf_and_iat" => {
       // both claims present: the credential is valid from nbf (here in the future), iat (in the past) is only the
       // time of signing
@@ -492,6 +502,15 @@ fn issue_crafted(w: &mut World, step: usize) {
       "issuer": p.did,
       "issuanceDate": crate::core::time::rfc3339(now_i + 500),
     })
+  } else if kind == "base_context_not_first" {
+    serde_json::json!({
+      "@context": claims["vc"]["@context"],
+      "id": claims["jti"],
+      "type": ["VerifiableCredential"],
+      "credentialSubject": {"id": "did:sim:subject", "crafted": step},
+      "issuer": p.did,
+      "issuanceDate": crate::core::time::rfc3339(now_i - 100),
+    })
   } else {
     Value::Null
   };
@@ -505,7 +524,7 @@ fn issue_crafted(w: &mut World, step: usize) {
       truth,
       custom: None,
       issued_index: None,
-      crafted: Some(kind).filter(|k| *k != "nbf_and_iat"),
+      crafted: Some(kind).filter(|k| *k != "nbf_and_iat" && *k != "base_context_not_first"),
     });
   }
 }
@@ -953,10 +972,11 @@ fn validate_credential(w: &mut World, step: usize) {
   let Some(sup) = resolve(w, supply_party) else { return };
   // ---- options ----
   let mut vopts = JwsVerificationOptions::default();
-  let opt_nonce: Option<String> = match ctx::weighted(&[12, 2, 2, 1]) {
+  let opt_nonce: Option<String> = match ctx::weighted(&[12, 2, 2, 1, 1]) {
     0 => t.nonce.clone(),
     1 => Some("othernonce".to_owned()),
     2 => None,
+    4 => super::whitespace_twin(&t.nonce),
     _ => Some(String::new()), // the empty string is a nonce; an absent nonce is not
   };
   if let Some(n) = &opt_nonce {
@@ -1204,7 +1224,17 @@ fn validate_credential(w: &mut World, step: usize) {
         Some(Value::String(s)) => vec![s.as_str()],
         _ => vec![],
       };
-      if !types.contains(&"VerifiableCredential") {
+      // the base context is the FIRST context entry (a single string counts as a one-element list)
+      const BASE_CONTEXT: &str = "https://www.w3.org/2018/credentials/v1";
+      let context_ok = match c.get("@context") {
+        Some(Value::String(s)) => s == BASE_CONTEXT,
+        Some(Value::Array(a)) => a.first().and_then(|v| v.as_str()) == Some(BASE_CONTEXT),
+        _ => false,
+      };
+      if !context_ok {
+        ctx::stat("false.structure.base_context_not_first");
+      }
+      if !types.contains(&"VerifiableCredential") || !context_ok {
         units.push("CredentialStructure");
         unit_labels.push("structure");
         ctx::stat("false.structure");
@@ -1468,10 +1498,11 @@ fn validate_presentation(w: &mut World, step: usize) {
   };
   let Some(sup) = resolve(w, supply_party) else { return };
   let mut vopts = JwsVerificationOptions::default();
-  let opt_nonce: Option<String> = match ctx::weighted(&[12, 2, 2, 1]) {
+  let opt_nonce: Option<String> = match ctx::weighted(&[12, 2, 2, 1, 1]) {
     0 => t.nonce.clone(),
     1 => Some("replayed-elsewhere".to_owned()),
     2 => None,
+    4 => super::whitespace_twin(&t.nonce),
     _ => Some(String::new()), // the empty string is a nonce; an absent nonce is not
   };
   if let Some(n) = &opt_nonce {
